@@ -101,6 +101,17 @@ def check_one(rep, binary, prog, input_text):
             if d:
                 break
         d = d or f"{len(s_vals)} vs {len(ref[0])} outputs"
+        if re.search(r"\bflatten\b(?!\s*\()", prog):
+            # known divergence class: bare `flatten` flattens one level only. Recognised exactly: succinctly's
+            # output must equal what the reference computes for the same program with flatten(1).
+            try:
+                o1, e1 = jqref.run(re.sub(r"\bflatten\b(?!\s*\()", "flatten(1)", prog), value)
+                if e1 is None and seq_equal(s_vals, [py_to_cmp(x) for x in o1]):
+                    rep.violation("C24:outputs_differ:flatten:bare_flatten_is_depth_1",
+                                  f"{prog!r} on {input_text[:120]!r}: succinctly flattens one level, jq flattens completely: {d}", replay)
+                    return
+            except (jqref.Unsupported, RecursionError):
+                pass
         rep.violation(f"C24:outputs_differ:{top}", f"{prog!r} on {input_text[:120]!r}: succinctly vs witnesses: {d}", replay)
         return
     if s_err != w1_err:
@@ -156,6 +167,7 @@ def run(leg, seed, tier, replay=None):
     cases = climon.gen_lines("gen-jq", seed + 24, n, dialect="core")
 
     def work(c):
+        before = rep.counters.get("witness.agree", 0)
         check_one(rep, binary, c["prog"], c["input"])
         rep.nontrivial(c["prog"] + "\x00" + c["input"])
 
